@@ -82,7 +82,7 @@ pub fn call(
             PAST_CALL.with(|c| *c.borrow_mut() = Some((p.clone(), l, d, w, res.clone())));
             // (c) cache-poisoning probe: call a NEAR-DUPLICATE input (one field nudged), then the original again.
             //     A memo keyed too coarsely (or missing a field) hands the neighbour's data back to the original.
-            let kind = (st.evaluations / probe_every) % 13;
+            let kind = (st.evaluations / probe_every) % 17;
             let (mut p2, mut l2, mut d2, mut w2) = (p.clone(), l, d, w);
             let g = f64::from(l.gmt);
             let lo = f64::from(l.coords.longitude);
@@ -108,6 +108,25 @@ pub fn call(
                     p2.intervals.insert(Prayer::Imsaak, p.intervals[&Prayer::Imsaak] + 3.0);
                 }
                 11 => p2.round_seconds = if p.round_seconds == RoundSeconds::None { RoundSeconds::NormalRounding } else { RoundSeconds::None },
+                // two fields at once: the neighbouring day seen from a slightly different zone / place
+                13 => {
+                    d2 = d.pred_opt().unwrap_or(d);
+                    l2.gmt = Gmt::try_from(nudge(g, 0.005, -12.0, 12.0)).unwrap();
+                }
+                14 => {
+                    d2 = d.succ_opt().unwrap_or(d);
+                    l2.gmt = Gmt::try_from(nudge(g, -0.005, -12.0, 12.0)).unwrap();
+                }
+                15 => {
+                    d2 = d.pred_opt().unwrap_or(d);
+                    l2.coords.longitude = Longitude::try_from(nudge(lo, 0.05, -180.0, 180.0)).unwrap();
+                    l2.coords.latitude = Latitude::try_from(nudge(la, 0.05, -90.0, 90.0)).unwrap();
+                }
+                16 => {
+                    d2 = d.succ_opt().unwrap_or(d);
+                    l2.gmt = Gmt::try_from(nudge(g, 0.25, -12.0, 12.0)).unwrap();
+                    l2.coords.longitude = Longitude::try_from(nudge(lo, 3.75, -180.0, 180.0)).unwrap();
+                }
                 _ => {
                     use ExtremeLatitudeMethod as E;
                     p2.extreme_latitude_method = match p.extreme_latitude_method {
